@@ -18,7 +18,7 @@ import (
 	"github.com/jdillenkofer/pithos/internal/verif/vkit"
 )
 
-var c06Alphabet = []string{"a", "A", "b", "B", "%", "_", "/", "-", "é", "日", " "}
+var c06Alphabet = []string{"a", "A", "b", "B", "%", "_", "/", "-", "é", "日", " ", "😀", "𠮷", "\ufffd"}
 var c06Delims = []string{"/", "%", "a", "//"}
 
 // ---- fixture specification (pure data, replayable) ----
@@ -1164,7 +1164,7 @@ func (c *c06ctx) runFixture(fx *fixture, rng *vkit.Rand, st *c06Stats, pinned []
 func pinnedKeySet() keySetSpec {
 	return keySetSpec{
 		Index: 0,
-		Keys:  []string{"a", "A", "ab", "aB", "a%", "a%b", "a_", "a_b", "axb", "a/", "a//", "a//b", "a//c", "a/b", "a/c/d", "b/x", "b/y", "c", "é/日", "é//日", " "},
+		Keys:  []string{"a", "A", "ab", "aB", "a%", "a%b", "a_", "a_b", "axb", "a/", "a//", "a//b", "a//c", "a/b", "a/c/d", "b/x", "b/y", "c", "é/日", "é//日", " ", "a/😀", "a/\ufffd", "😀/x", "𠮷"},
 		VKeys: []verKey{{Key: "a//b", Versions: []bool{false, true}}, {Key: "a/b", Versions: []bool{false, false}}, {Key: "a//c", Versions: []bool{false}},
 			{Key: "A", Versions: []bool{false}}, {Key: "ab", Versions: []bool{true, false}}, {Key: "a%", Versions: []bool{false}}, {Key: "a_b", Versions: []bool{false, true, false}},
 			{Key: "axb", Versions: []bool{false}}, {Key: "b/x", Versions: []bool{false}}, {Key: "b/y", Versions: []bool{false, false}}, {Key: "c", NullFirst: true, Versions: []bool{false, false}}},
@@ -1177,7 +1177,7 @@ type pq struct{ p, d *string }
 
 func pinnedQueries() []pq {
 	var out []pq
-	for _, p := range []*string{nil, sp("a/"), sp("a"), sp("A"), sp("a%"), sp("a_"), sp("b/"), sp("é/")} {
+	for _, p := range []*string{nil, sp("a/"), sp("a"), sp("A"), sp("a%"), sp("a_"), sp("b/"), sp("é/"), sp("😀")} {
 		for _, d := range []*string{nil, sp("/"), sp("//")} {
 			out = append(out, pq{p, d})
 		}
@@ -1199,7 +1199,7 @@ func keySetSize(rng *vkit.Rand, i int) int {
 
 func runC06(tier, replay string) {
 	r := vkit.Begin("C06", "exploration", tier)
-	r.SetRule("PRNG key sets of 0-40 keys over {a,A,b,B,%,_,/,-,é,日,space} with shared prefixes (unversioned bucket), a versioned bucket with 1-4 versions/delete markers per key (some null versions), 1-3 pending uploads per key and one upload with 0-9 parts; for prefixes drawn from all key prefixes plus case-flipped and %/_ variants x delimiters {none,'/','%','a','//'} x first markers {none, at, between, beyond} x page sizes (ALL 1..rows+1 when rows <= 9, else {1,2,k,rows,rows+1}) each of ListObjects v1/v2 (HTTP+XML), storage.ListObjects, ListObjectVersions, ListMultipartUploads, ListParts (storage API and HTTP) is paged by its continuation markers until IsTruncated=false and the concatenation is compared with a reference listing computed from the key set. distinct = distinct (API, bucket, delimiter, prefix class, marker class, page size, reference size, pages) tuples")
+	r.SetRule("PRNG key sets of 0-40 keys over {a,A,b,B,%,_,/,-,é,日,space,U+1F600,U+20BB7,U+FFFD} (1- to 4-byte UTF-8) with shared prefixes (unversioned bucket), a versioned bucket with 1-4 versions/delete markers per key (some null versions), 1-3 pending uploads per key and one upload with 0-9 parts; for prefixes drawn from all key prefixes plus case-flipped and %/_ variants x delimiters {none,'/','%','a','//'} x first markers {none, at, between, beyond} x page sizes (ALL 1..rows+1 when rows <= 9, else {1,2,k,rows,rows+1}) each of ListObjects v1/v2 (HTTP+XML), storage.ListObjects, ListObjectVersions, ListMultipartUploads, ListParts (storage API and HTTP) is paged by its continuation markers until IsTruncated=false and the concatenation is compared with a reference listing computed from the key set. distinct = distinct (API, bucket, delimiter, prefix class, marker class, page size, reference size, pages) tuples")
 	r.Assume("oracle = reference listing written in the harness: byte-wise prefix, UTF-8 binary key order, delimiter roll-up after the prefix, each entry once; order of versions within one key is not asserted (DESIGN.md section 6); upload order = (key, upload id)")
 	r.Assume("storage.ListObjects paged with a delimiter and repeated CommonPrefixes across pages of the storage-level list calls are not asserted (the storage API has no continuation marker for prefixes; the HTTP handlers own that protocol and are asserted strictly)")
 	r.SetMaxSamples(6)
